@@ -211,6 +211,7 @@ func syncRules(c *Ctx) {
 	e.covReset(newFn)
 
 	reach := core.SortedSet(c.P.Reachable(flat))
+	e.identity(reach)
 	for _, fi := range reach {
 		e.sum[fi] = &syncSummary{exits: dset{}}
 	}
@@ -290,6 +291,55 @@ func (e *syncEngine) methodCallsOn(fi *core.FuncInfo) []string {
 		out = append(out, callee.Name())
 	}
 	return out
+}
+
+// identity (SYNC-IDENTITY): Flatten works on a copy of its options, so the analyzer the caller observes is the
+// one the Spec field pointed to on entry. No function below Flatten may re-point that field (to a new analyzer):
+// every later re-analysis would then refresh a private analyzer and leave the caller's stale.
+func (e *syncEngine) identity(reach []*core.FuncInfo) {
+	c := e.c
+	var optsSpec *types.Var
+	var optsT types.Type
+	if o := c.P.Pkg("").Types.Scope().Lookup("FlattenOpts"); o != nil {
+		optsT = o.Type()
+	}
+	if optsT == nil {
+		c.S.Undecided("C10", "SYNC-IDENTITY", "anchor", "-", "type FlattenOpts not found")
+		return
+	}
+	if st, ok := optsT.Underlying().(*types.Struct); ok {
+		for i := 0; i < st.NumFields(); i++ {
+			if f := st.Field(i); core.IsModType(f.Type(), "Spec") {
+				optsSpec = f
+			}
+		}
+	}
+	if optsSpec == nil {
+		c.S.Undecided("C10", "SYNC-IDENTITY", "anchor", "-", "FlattenOpts has no field of type *Spec")
+		return
+	}
+	n := 0
+	for _, fi := range reach {
+		info := c.info(fi)
+		ast.Inspect(fi.Decl.Body, func(nd ast.Node) bool {
+			as, ok := nd.(*ast.AssignStmt)
+			if !ok {
+				return true
+			}
+			for _, l := range as.Lhs {
+				if sel, ok := core.Unparen(l).(*ast.SelectorExpr); ok && core.FieldOf(info, sel) == optsSpec {
+					n++
+					c.S.Violate("C10", "SYNC-IDENTITY", fi.QName()+"/"+optsSpec.Name(), c.P.Pos(as.Pos()),
+						"the analyzer field of the flattening options is re-pointed below Flatten: the options are a copy, so the caller keeps the old analyzer, which no later re-analysis refreshes — its views stay those of the original document")
+				}
+			}
+			return true
+		})
+	}
+	if n == 0 {
+		c.S.Hold("C10", "SYNC-IDENTITY", "FlattenOpts."+optsSpec.Name(), c.P.Pos(optsSpec.Pos()),
+			fmt.Sprintf("no assignment to the analyzer field in the %d functions below Flatten: every re-analysis refreshes the caller's analyzer", len(reach)))
+	}
 }
 
 // covReset: the first rebuild function assigns every map field of Spec (recursively through struct fields) with make.
